@@ -1005,3 +1005,237 @@ Proof.
   split; [vm_compute; reflexivity|]. split; [|vm_compute; reflexivity].
   do 2 eexists. split; [vm_compute; reflexivity|]. split; vm_compute; reflexivity.
 Qed.
+
+(* ================================================================== *)
+(* 8. ONE BEHIND: "a campaigning node's active configuration is at most one membership change
+   behind the last membership entry in its own log" - the two node-local halves.
+   Proofs: M/RaftProofsOneBehind.v.  Entries are all_ents (everything the log physically
+   holds), membership-change entries are is_conf_entry (EntryConfChange / EntryConfChangeV2).
+     conf_gap l k        of any two membership-change entries of l, the lower one is <= k
+                         (at most one lies above k)
+     ship_ok l x         every membership-change entry of l below one that x ships is <= x.commit
+     FollowerConfGap r   conf_gap (r_log r) (committed (r_log r))
+   PROVED
+   (1) leader side.  Whatever maybe_send_append / send_append / bcast_append add to the queue
+       is a MsgSnapshot or a MsgAppend with commit = the leader's commit index whose entries
+       are log entries (C09_onebehind_send_append_fresh, _bcast_append_fresh; batching
+       included); hence, when at most one membership change lies above applied and
+       applied <= committed, every such MsgAppend satisfies ship_ok
+       (C09_onebehind_leader_appends_cover_conf).  "At most one above applied" is kept by the
+       leader's own MsgPropose path - the filter argument - under ConfBound and LogBounded
+       (C09_onebehind_propose_keeps_gap).  It does NOT follow from ConfBound alone: a leader
+       that inherited two membership changes above its commit index ships both
+       (C09_onebehind_leader_cover_from_ConfBound_refuted); that a new leader inherits at
+       most one is protocol level.
+   (2) follower side.  In the accepted case of handle_append_entries the commit index becomes
+       exactly max(committed, min(m.commit, m.index + |m.entries|)), applied is unchanged and
+       every entry held afterwards was held before or came with the message
+       (C09_onebehind_follower_commit_lower); in the other cases the log is untouched
+       (C09_onebehind_follower_other_cases).
+   (3) combination, PARTIAL.  FollowerConfGap is preserved by an accepted append under the
+       residual cross-node hypothesis prefix_conf_agree (of two membership changes of which at
+       least one comes from the message, the lower one is <= min(m.commit, last new index)):
+       on the sender's side that is (1); against the RECEIVER's entries it is agreement of
+       the two logs, i.e. cross-node log matching (C05, protocol level), not available to the
+       node model (C09_onebehind_follower_gap_preserved_partial).  With hup: when a campaign
+       actually starts from a FollowerConfGap state, at most one membership change of the
+       node's whole log lies above applied (C09_onebehind_campaign_one_behind), given
+       window_clean = "no membership change in (applied, committed]", which is what hup's
+       negative scan means (needs slice correctness, see above) and is vacuous when
+       committed <= applied (C09_onebehind_window_clean_caught_up). *)
+From RV Require Import M.RaftProofsOneBehind.
+
+Theorem C09_onebehind_defs :
+  (forall l k, conf_gap l k <->
+     forall e1 e2, all_ents l e1 -> all_ents l e2 ->
+       is_conf_entry e1 = true -> is_conf_entry e2 = true ->
+       e_index e1 < e_index e2 -> e_index e1 <= k) /\
+  (forall l x, ship_ok l x <->
+     forall ei ej, all_ents l ei -> In ej (m_entries x) ->
+       is_conf_entry ei = true -> is_conf_entry ej = true ->
+       e_index ei < e_index ej -> e_index ei <= m_commit x) /\
+  (forall r x, fresh_append r x <->
+     (m_type x = MsgAppend /\ m_commit x = committed (r_log r) /\
+      forall e, In e (m_entries x) -> all_ents (r_log r) e)) /\
+  (forall r, queue_ships_log r <->
+     forall x, In x (r_msgs r) -> m_type x = MsgAppend ->
+       forall e, In e (m_entries x) -> all_ents (r_log r) e) /\
+  (forall r r', adds_fresh r r' <->
+     (r_log r' = r_log r /\
+      forall x, In x (r_msgs r') -> In x (r_msgs r) \/ m_type x = MsgSnapshot \/ fresh_append r x)) /\
+  (forall r, FollowerConfGap r <-> conf_gap (r_log r) (committed (r_log r))) /\
+  (forall l m, prefix_conf_agree l m <->
+     forall e1 e2,
+       (all_ents l e1 \/ In e1 (m_entries m)) -> (all_ents l e2 \/ In e2 (m_entries m)) ->
+       (In e1 (m_entries m) \/ In e2 (m_entries m)) ->
+       is_conf_entry e1 = true -> is_conf_entry e2 = true -> e_index e1 < e_index e2 ->
+       e_index e1 <= N.min (m_commit m) (m_index m + N.of_nat (length (m_entries m)))) /\
+  (forall l, window_clean l <->
+     forall e, all_ents l e -> is_conf_entry e = true -> applied l < e_index e -> committed l < e_index e).
+Proof.
+  exact (conj (fun _ _ => conj (fun H => H) (fun H => H))
+        (conj (fun _ _ => conj (fun H => H) (fun H => H))
+        (conj (fun _ _ => conj (fun H => H) (fun H => H))
+        (conj (fun _ => conj (fun H => H) (fun H => H))
+        (conj (fun _ _ => conj (fun H => H) (fun H => H))
+        (conj (fun _ => conj (fun H => H) (fun H => H))
+        (conj (fun _ _ => conj (fun H => H) (fun H => H))
+              (fun _ => conj (fun H => H) (fun H => H))))))))).
+Qed.
+Print Assumptions C09_onebehind_defs.
+
+(* --- (1) leader side --- *)
+Theorem C09_onebehind_maybe_send_append_fresh :
+  forall r to pr ae r' pr' b,
+  maybe_send_append r to pr ae = Ok (r', pr', b) -> queue_ships_log r ->
+  r_log r' = r_log r /\
+  forall x, In x (r_msgs r') ->
+    In x (r_msgs r) \/ m_type x = MsgSnapshot \/ fresh_append r x.
+Proof. exact maybe_send_append_fresh. Qed.
+Print Assumptions C09_onebehind_maybe_send_append_fresh.
+
+Theorem C09_onebehind_send_append_fresh :
+  forall r to r', send_append_to r to = Ok r' -> queue_ships_log r -> adds_fresh r r'.
+Proof. exact send_append_to_fresh. Qed.
+Print Assumptions C09_onebehind_send_append_fresh.
+
+Theorem C09_onebehind_bcast_append_fresh :
+  forall r r', bcast_append r = Ok r' -> queue_ships_log r -> adds_fresh r r'.
+Proof. exact bcast_append_fresh. Qed.
+Print Assumptions C09_onebehind_bcast_append_fresh.
+
+Theorem C09_onebehind_leader_appends_cover_conf :
+  forall r r',
+  adds_fresh r r' ->
+  conf_gap (r_log r) (applied (r_log r)) -> applied (r_log r) <= committed (r_log r) ->
+  forall x, In x (r_msgs r') -> ~ In x (r_msgs r) -> m_type x = MsgAppend ->
+    m_commit x = committed (r_log r) /\
+    (forall e, In e (m_entries x) -> all_ents (r_log r) e) /\
+    (forall ei ej, all_ents (r_log r) ei -> In ej (m_entries x) ->
+       is_conf_entry ei = true -> is_conf_entry ej = true ->
+       e_index ei < e_index ej -> e_index ei <= m_commit x).
+Proof. exact leader_appends_cover_conf. Qed.
+Print Assumptions C09_onebehind_leader_appends_cover_conf.
+
+Theorem C09_onebehind_propose_keeps_gap :
+  forall r m r' c,
+  m_type m = MsgPropose -> step_leader r m = Ok (r', c) ->
+  ConfBound r -> LogBounded (r_log r) -> applied (r_log r) <= last_index (r_log r) ->
+  conf_gap (r_log r) (applied (r_log r)) ->
+  conf_gap (r_log r') (applied (r_log r')).
+Proof. exact propose_keeps_conf_gap. Qed.
+Print Assumptions C09_onebehind_propose_keeps_gap.
+
+Theorem C09_onebehind_leader_cover_from_ConfBound_refuted :
+  exists r r' x,
+    r_state r = Leader /\ ConfBound r /\ applied (r_log r) <= committed (r_log r) /\
+    send_append_to r 2 = Ok r' /\ In x (r_msgs r') /\ m_type x = MsgAppend /\
+    ~ ship_ok (r_log r) x.
+Proof. exact leader_cover_from_ConfBound_refuted. Qed.
+Print Assumptions C09_onebehind_leader_cover_from_ConfBound_refuted.
+
+(* non-vacuity: a leader with entries 1, 2(cc), 3(cc), commit = applied = 2 (one membership
+   change above applied) sends follower 2 the entries 2 and 3 with commit 2 *)
+Example C09_onebehind_leader_example :
+  conf_gap (r_log OneBehindSamples.w_leader_one) (applied (r_log OneBehindSamples.w_leader_one)) /\
+  queue_ships_log OneBehindSamples.w_leader_one /\
+  exists r' x, send_append_to OneBehindSamples.w_leader_one 2 = Ok r' /\ r_msgs r' = [x] /\
+    m_type x = MsgAppend /\ map e_index (m_entries x) = [2; 3] /\
+    map is_conf_entry (m_entries x) = [true; true] /\ m_commit x = 2.
+Proof.
+  split.
+  { intros e1 e2 [A1|A1] [A2|A2] C1 C2 Hlt; vm_compute in A1, A2; try contradiction.
+    repeat destruct A1 as [A1|A1]; try contradiction; repeat destruct A2 as [A2|A2]; try contradiction;
+      subst e1 e2; vm_compute in C1, C2, Hlt |- *; try discriminate. }
+  split; [intros x [] |].
+  do 2 eexists. split; [vm_compute; reflexivity|]. vm_compute. repeat split.
+Qed.
+
+(* --- (2) follower side --- *)
+Theorem C09_onebehind_follower_commit_lower :
+  forall r m r',
+  handle_append_entries r m = Ok r' ->
+  r_pending_request_snapshot r = Progress.INVALID_INDEX ->
+  committed (r_log r) <= m_index m ->
+  match_term (r_log r) (m_index m) (m_log_term m) = Ok true ->
+  let lastnew := m_index m + N.of_nat (length (m_entries m)) in
+  committed (r_log r') = N.max (committed (r_log r)) (N.min (m_commit m) lastnew) /\
+  N.min (m_commit m) lastnew <= committed (r_log r') /\
+  committed (r_log r) <= committed (r_log r') /\
+  applied (r_log r') = applied (r_log r) /\
+  (forall e, all_ents (r_log r') e -> all_ents (r_log r) e \/ In e (m_entries m)).
+Proof. exact follower_commit_lower. Qed.
+Print Assumptions C09_onebehind_follower_commit_lower.
+
+Theorem C09_onebehind_follower_other_cases :
+  forall r m r',
+  handle_append_entries r m = Ok r' ->
+  (r_pending_request_snapshot r <> Progress.INVALID_INDEX \/ m_index m < committed (r_log r) \/
+   match_term (r_log r) (m_index m) (m_log_term m) = Ok false) ->
+  r_log r' = r_log r.
+Proof. exact follower_conf_gap_other_cases. Qed.
+Print Assumptions C09_onebehind_follower_other_cases.
+
+(* --- (3) combination (partial: prefix_conf_agree is the residual cross-node hypothesis) --- *)
+Theorem C09_onebehind_follower_gap_preserved_partial :
+  forall r m r',
+  handle_append_entries r m = Ok r' ->
+  r_pending_request_snapshot r = Progress.INVALID_INDEX ->
+  committed (r_log r) <= m_index m ->
+  match_term (r_log r) (m_index m) (m_log_term m) = Ok true ->
+  FollowerConfGap r -> prefix_conf_agree (r_log r) m ->
+  FollowerConfGap r'.
+Proof. exact follower_conf_gap_preserved_partial. Qed.
+Print Assumptions C09_onebehind_follower_gap_preserved_partial.
+
+Theorem C09_onebehind_window_clean_caught_up :
+  forall l, committed l <= applied l -> window_clean l.
+Proof. exact window_clean_caught_up. Qed.
+Print Assumptions C09_onebehind_window_clean_caught_up.
+
+Theorem C09_onebehind_campaign_one_behind :
+  forall r tl r',
+  FollowerConfGap r -> hup r tl = Ok r' -> r' <> r -> window_clean (r_log r) ->
+  is_leader r = false /\ r_promotable r = true /\ hup_scan r false /\
+  conf_gap (r_log r) (applied (r_log r)).
+Proof. exact campaign_one_behind. Qed.
+Print Assumptions C09_onebehind_campaign_one_behind.
+
+(* non-vacuity: a follower with entries 1, 2(cc), commit 1, accepts the append [3(cc)] sent at
+   commit 2 (index 2, term 1 match): its commit index becomes min(2, 3) = 2, all hypotheses
+   of the preservation theorem hold, and FollowerConfGap holds afterwards; the same follower,
+   asked to campaign, does so with exactly one membership change (2) above applied = 1 *)
+Example C09_onebehind_follower_example :
+  match_term (r_log OneBehindSamples.w_follower) 2 1 = Ok true /\
+  FollowerConfGap OneBehindSamples.w_follower /\
+  prefix_conf_agree (r_log OneBehindSamples.w_follower) OneBehindSamples.w_append /\
+  (exists r', handle_append_entries OneBehindSamples.w_follower OneBehindSamples.w_append = Ok r' /\
+     committed (r_log r') = 2 /\ FollowerConfGap r') /\
+  window_clean (r_log OneBehindSamples.w_follower) /\
+  (exists r', hup OneBehindSamples.w_follower false = Ok r' /\ r_state r' = Candidate /\
+     r' <> OneBehindSamples.w_follower).
+Proof.
+  assert (G : FollowerConfGap OneBehindSamples.w_follower).
+  { intros e1 e2 [A1|A1] [A2|A2] C1 C2 Hlt; vm_compute in A1, A2; try contradiction.
+    repeat destruct A1 as [A1|A1]; try contradiction; repeat destruct A2 as [A2|A2]; try contradiction;
+      subst e1 e2; vm_compute in C1, C2, Hlt |- *; try discriminate. }
+  assert (P : prefix_conf_agree (r_log OneBehindSamples.w_follower) OneBehindSamples.w_append).
+  { intros e1 e2 H1 H2 _ C1 C2 Hlt.
+    assert (K1 : e1 = C09Samples.e_norm 1 1 \/ e1 = C09Samples.e_cc 1 2 \/ e1 = C09Samples.e_cc 2 3).
+    { destruct H1 as [[H1|H1]|H1]; vm_compute in H1; try contradiction;
+        repeat destruct H1 as [H1|H1]; try contradiction; subst; auto. }
+    assert (K2 : e2 = C09Samples.e_norm 1 1 \/ e2 = C09Samples.e_cc 1 2 \/ e2 = C09Samples.e_cc 2 3).
+    { destruct H2 as [[H2|H2]|H2]; vm_compute in H2; try contradiction;
+        repeat destruct H2 as [H2|H2]; try contradiction; subst; auto. }
+    destruct K1 as [->|[->| ->]]; destruct K2 as [->|[->| ->]];
+      vm_compute in C1, C2, Hlt |- *; try discriminate. }
+  split; [vm_compute; reflexivity|]. split; [exact G|]. split; [exact P|]. split.
+  { destruct (handle_append_entries OneBehindSamples.w_follower OneBehindSamples.w_append) as [r'|s] eqn:E;
+      [|vm_compute in E; discriminate].
+    exists r'. split; [reflexivity|]. split.
+    - vm_compute in E. inversion E. reflexivity.
+    - eapply C09_onebehind_follower_gap_preserved_partial; [exact E|reflexivity|vm_compute; discriminate
+                                                            |vm_compute; reflexivity|exact G|exact P]. }
+  split; [apply window_clean_caught_up; vm_compute; discriminate|].
+  eexists. split; [vm_compute; reflexivity|]. split; [reflexivity|]. intros K. discriminate K.
+Qed.
